@@ -1102,6 +1102,10 @@ func main() {
 	r.Cases("zero", r.N(3*len(zeroMethods)*2*4, 3*len(zeroMethods)*2*200), ev.Opt{HangViolation: true}, zeroCase)
 	r.Cases("tall", r.N(3000, 150000), ev.Opt{HangViolation: true}, tallCase)
 	r.Cases("parallel-private", r.N(40, 1000), ev.Opt{Workers: 2}, parallelCase)
+	// cold start: one fresh process per case, so that whatever operation the case begins
+	// with (on a zero value, a new list, a scripted list) is the first skip-list call of the process
+	r.CasesProc("cold-start/seq", 16, ev.Opt{Procs: 16, HangViolation: true}, seqCase)
+	r.CasesProc("cold-start/zero", 8, ev.Opt{Procs: 8, HangViolation: true}, zeroCase)
 	r.Require("full_enumerations", 10000)
 	r.Require("inserts", 100000)
 	r.Require("removals", 100000)
